@@ -399,3 +399,19 @@ mod tests {
         assert_eq!(result.len(), 2);
     }
 }
+
+/// Verification wrappers around the private stages (feature `verif-hooks` only).
+#[cfg(feature = "verif-hooks")]
+pub mod verif {
+    use crate::polynomial::Polynomial;
+    use num::BigInt;
+    pub fn squarefree(f: &Polynomial<BigInt>, p: &BigInt, pusize: usize) -> Vec<(Polynomial<BigInt>, usize)> {
+        super::squarefree::<BigInt>(f, p, pusize)
+    }
+    pub fn degree(f: &Polynomial<BigInt>, p: &BigInt) -> Vec<(Polynomial<BigInt>, usize)> {
+        super::degree::<BigInt>(f, p)
+    }
+    pub fn final_split(f: &Polynomial<BigInt>, p: &BigInt, d: usize) -> Vec<Polynomial<BigInt>> {
+        super::final_split::<BigInt>(f, p, d)
+    }
+}
